@@ -344,6 +344,10 @@ pub fn dfs_all(store: &LpgStore) -> Vec<NodeId> {
                 TraversalEvent::Finish(n) => {
                     finished.push(n);
                 }
+                // Already finished by an earlier search: do not visit it again
+                TraversalEvent::TreeEdge { target, .. } if visited.contains(&target) => {
+                    return Control::Prune;
+                }
                 _ => {}
             }
             Control::Continue
